@@ -353,6 +353,14 @@ fn run(ctx: &RunCtx) -> Report {
             _ => rng.range(6, 20) * 60 * SEC,
         }
     };
+    // 1 run in 8 (own random stream): a read more than half an hour after the write - nothing in the property
+    // lets an acknowledged value expire while its holder is alive (stores are bounded by capacity, not age)
+    let gap = if !large && xrng.chance(1, 8) {
+        report.probe("reads_later_than_30_minutes", 1);
+        xrng.range(31, 75) * 60 * SEC
+    } else {
+        gap
+    };
     sim.run_for(gap);
     report.probe(if gap > 45 * SEC { "reads_later_than_45s" } else { "reads_within_45s" }, 1);
     if let Some(r) = warm_reader.or(veteran) {
